@@ -1957,7 +1957,7 @@ func exUnionsGraph() *exGraph {
 // exNamesGraph: one document whose path items, parameters, responses and definitions carry names that hold the text of an
 // escape ("%41", "a%20b", "~1"), next to the names a second decoding would turn them into: a reference designates a member
 // after exactly one round of percent- and pointer-decoding, whichever way the root is supplied.
-var exOddNames = []string{"only%41", "onlyA", "a%20b", "a b", "{id}", "%7Bid%7D", "100%", "x~1y", "x/y", "v~0", "v~", "é", "q?r", "h#i", "%"}
+var exOddNames = []string{"only%41", "onlyA", "a%20b", "a b", "{id}", "%7Bid%7D", "100%", "x~1y", "x/y", "v~0", "v~", "é", "q?r", "h#i", "%", "tail ", "tail", " lead"}
 
 func exNamesGraph() (*exGraph, []exResolveCase) {
 	paths, params, resps, defs := map[string]interface{}{}, map[string]interface{}{}, map[string]interface{}{}, map[string]interface{}{}
@@ -1972,6 +1972,11 @@ func exNamesGraph() (*exGraph, []exResolveCase) {
 			exResolveCase{Kind: "Response", Ref: "#" + exFragment(nil, []string{"responses", n}), Tag: "odd-name"},
 			exResolveCase{Kind: "Schema", Ref: "#" + exFragment(nil, []string{"definitions", n}), Tag: "odd-name"},
 			exResolveCase{Kind: "Schema", Ref: "#" + exFragment(nil, []string{"paths", "/" + n, "get", "responses", "200"}), Tag: "odd-name"})
+	}
+	// a blank written as it is (net/url keeps it): at the end of the text it is part of the last name
+	for _, r := range []string{"#/definitions/tail ", "#/paths/~1tail ", "#/parameters/tail ", "#/responses/tail ", "#/definitions/a b", "#/definitions/ lead"} {
+		kind := map[string]string{"paths": "PathItem", "parameters": "Parameter", "responses": "Response", "definitions": "Schema"}[strings.Split(r, "/")[1]]
+		cases = append(cases, exResolveCase{Kind: kind, Ref: r, Tag: "odd-name-raw-blank"})
 	}
 	// spelled with one escape too many, these designate nothing (or the member whose name really holds the escape)
 	for _, r := range []string{"#/paths/~1%257Bid%257D", "#/paths/~1only%2541", "#/parameters/%257Bid%257D", "#/definitions/a%2520b", "#/definitions/x~01y", "#/responses/100%2525"} {
